@@ -19,7 +19,9 @@ any node set at any state, Restart from the newest published checkpoint).
   Restart / Final traces and validated by spec/RecoveryTrace.tla.
 """
 import json
+import sys
 import vlib
+import c01_deep
 
 RULE = ("TLC explores every interleaving of reads, barrier deliveries, alignment, acks (any order), publication, "
         "Kill(any node set, any state) and Restart of Recovery.tla for small constants; simulated behaviours are "
@@ -154,17 +156,20 @@ def run(c):
         stage(c, replay_generated, c, consts, n[i], depth, c.seed * 100 + i, kg, "cfg%d" % i)
     stage(c, traces, c, TRACE, 4, 60 if quick else 400, c.seed * 7 + 1, "2 workers, 3x6 records", True)
     stage(c, traces, c, dict(TRACE, W=3, NSplits=4, NRecs=8, OwnerDigits=123123), 6, 20 if quick else 300, c.seed * 7 + 2, "3 workers, 4x8 records")
+    c01_deep.run_deep(c, sys.modules[__name__])   # dkv flush/compaction underneath, rescale at recovery, overlapping publications
     c.assumptions += [
         "one assembly per job: a restart is a new Job + fresh workers over the same storage (in-job reassembly is C15)",
         "kill-only fault model: calls never fail while both ends are alive; messages in flight from a dead node may still arrive",
-        "publication (snapshot write, deletion of the old file, retention round to the operators) is not interleaved with kills "
-        "or with the next checkpoint (DESIGN 7 #19/#28 belong to C13/C09)",
-        "operator DKVs run with the repo's default memtable sizes (no flush/compaction underneath): DKV correctness is C07/C08",
+        "one publication = snapshot write + deletion of the old file + retention round to the operators, not interleaved with other "
+        "steps (DESIGN 7 #19/#28 belong to C13/C09); the write itself may stay in flight across kills and the next checkpoint",
     ]
 
 
 def replay(c, path):
     payload = json.load(open(path))
+    if payload.get("deep"):
+        c01_deep.replay_trace(c, sys.modules[__name__], payload)
+        return
     if payload.get("mode") == "trace":
         cfg = payload["config"]
         consts = {k: v for k, v in cfg.items() if k not in ("KeyGroups", "Mode", "Runs", "Kills", "Ckpts", "BudgetSec")}
